@@ -469,3 +469,23 @@ Proof.
   apply (complete_exists sinkst sact sact_run item item_sec (fun t => thread_items cfg (nth t prog [])) (fun _ => sink0) (length prog)).
   intros t Ht. now rewrite nth_overflow.
 Qed.
+
+(* Bystanders.  A case may carry, after (cfg threads hints), a description of anything else
+   that happens in the process while the judged loggers run -- other loggers whose sinks fail
+   in Write or Sync, failing marshalers, reflection failures, panicking Stringers, a failing
+   branch hidden in the judged tee.  Neither the requirement on the judged sinks (spec, wf)
+   nor the model looks at it: whatever that history is, every judged sink must hold a merge
+   of the lines submitted to it, and the model delivers one. *)
+Theorem bystanders_thm (cfg threads hints : sx) (extra : list sx) :
+  (forall o, spec (SL (cfg :: threads :: hints :: extra)) o = spec (SL [cfg; threads; hints]) o) /\
+  model (SL (cfg :: threads :: hints :: extra)) = model (SL [cfg; threads; hints]) /\
+  wf (SL (cfg :: threads :: hints :: extra)) = wf (SL [cfg; threads; hints]) /\
+  (wf (SL [cfg; threads; hints]) = true ->
+   spec (SL (cfg :: threads :: hints :: extra)) (model (SL (cfg :: threads :: hints :: extra))) = true).
+Proof.
+  split; [|split; [|split]].
+  - intros o. reflexivity.
+  - reflexivity.
+  - reflexivity.
+  - intros W. apply spec_model. exact W.
+Qed.
